@@ -1622,8 +1622,13 @@ def state_closure(cx: Cx, ob: Ob) -> None:
         for B, ts in rebuilt.items():
             if B in index_calls and B not in explicit:
                 continue  # only `_index(record)` is called (as add_record does): no table is written from outside
+            suspends = any(e4.kind == "store" and op(e4.a) == "attr" and e4.a[1] == B and isinstance(e4.a[2], str) and e4.a[2].startswith("_") for e4, _c4 in fs.walk())
             if B in complete:
                 ob.site(f"{fn.where} {fn.qualname}", f"rebuilds every lookup table of `{show(B)[:30]}` from its own records, as __init__ does")
+            elif suspends:
+                # the function switches a private flag of that converter: rebuilding ONE table is the counterpart of
+                # _index leaving that table alone meanwhile (judged by the pairing rule on the flag, IDX obligation)
+                ob.site(f"{fn.where} {fn.qualname}", f"rebuilds {sorted(ts)} of `{show(B)[:30]}` while it holds a private flag of that converter")
             else:
                 missing = sorted(set(builders) - ts)
                 ob.violate(
